@@ -210,7 +210,95 @@ def parseProbe (h2 : Bool) (opts : Nat) (s : ReqSt) (probe : String) : Option St
       | .skipV6 => "skip-v6"
       | _ => "err 400"
 
+
+/-! ### connection-level cases (end-to-end stream) -/
+
+def hexParts (t : String) : Option (List Bytes) := (t.splitOn ":").mapM ofHex
+
+/-- site / configuration tokens:
+      n=<path>:<f|d>:<ctype>:<content>:<etag>   idx=<name>   deny=<suffix>   excl=<ext>
+      sc=<u|h|q>:<arg1>:<arg2>:<extra k:v list or *>:<range 0|1|*>:<maxka or *>:<docroot or *>
+      root=<docroot>  maxka=<n>  gextra=<k:v list>
+    all string parts hex-encoded -/
+structure SiteCfg where
+  site : Site := {}
+  env : SrvEnv := { nPlugins := 2, nContexts := 16,
+                    defaults := { parseopts := 9567, maxRequestFieldSize := 8192, maxKeepAliveRequests := 1000 } }
+
+def siteTok (c : SiteCfg) (tok : String) : Option SiteCfg :=
+  match splitEq tok with
+  | none => none
+  | some (k, v) =>
+    match k with
+    | "n" =>
+      match v.splitOn ":" with
+      | [p, kind, ct, content, etag] =>
+        match ofHex p, ofHex ct, ofHex content, ofHex etag with
+        | some pb, some ctb, some cb, some eb =>
+          let node := if kind = "d" then FsNode.dir else FsNode.file ctb cb eb
+          some { c with site := { c.site with nodes := c.site.nodes ++ [(pb, node)] } }
+        | _, _, _, _ => none
+      | _ => none
+    | "idx" => (ofHex v).map fun b => { c with site := { c.site with indexNames := c.site.indexNames ++ [b] } }
+    | "deny" => (ofHex v).map fun b => { c with site := { c.site with denySuffix := c.site.denySuffix ++ [b] } }
+    | "excl" => (ofHex v).map fun b => { c with site := { c.site with excludeExt := c.site.excludeExt ++ [b] } }
+    | "root" => (ofHex v).map fun b => { c with env := { c.env with defaults := { c.env.defaults with docRoot := b } } }
+    | "gextra" => (kvList v).map fun l => { c with env := { c.env with defaults := { c.env.defaults with extra := l } } }
+    | "maxka" => v.toNat?.map fun n => { c with env := { c.env with defaults := { c.env.defaults with maxKeepAliveRequests := n } } }
+    | "sc" =>
+      match v.splitOn ";" with
+      | [kind, a1, a2, extra, rng, mka, root] =>
+        match ofHex a1, ofHex a2 with
+        | some b1, some b2 =>
+          let cond : Cond := if kind = "u" then .urlPrefix b1 else if kind = "h" then .hostEq b1 else .headerEq b1 b2
+          let ex : Option (Option (List (Bytes × Bytes))) :=
+            if extra = "*" then some none else (kvList extra).map some
+          let rt : Option (Option Bytes) := if root = "*" then some none else (ofHex root).map some
+          match ex, rt with
+          | some ex, some rt =>
+            let sc : Scope := { cond := cond, extra := ex,
+                                rangeRequests := if rng = "*" then none else some (rng = "1"),
+                                maxKeepAliveRequests := if mka = "*" then none else mka.toNat?,
+                                docRoot := rt }
+            some { c with site := { c.site with scopes := c.site.scopes ++ [sc] } }
+          | _, _ => none
+        | _, _ => none
+      | _ => none
+    | _ => none
+
+def outStr (o : Option Out) : String :=
+  match o with
+  | none => "none"
+  | some o =>
+    let hs := (o.core.2.1.map fun kv => toHex kv.1 ++ "=" ++ toHex kv.2).toArray.qsort (· < ·) |>.toList
+    s!"{o.status},{if o.keepAlive then 1 else 0},{toHex o.body}," ++
+      (if hs.isEmpty then "-" else String.intercalate ";" hs)
+
+/-- conn <1|2> <site tokens...> -- <message> <message> ...
+    h1 message = hex request head;  h2 message = <endStream 0|1>:<k:v,...> -/
+def connLine (ver : String) (rest : List String) : String :=
+  match rest.span (· ≠ "--") with
+  | (cfgToks, _ :: msgs) =>
+    match cfgToks.foldlM siteTok {} with
+    | none => "bad-op"
+    | some cfg =>
+      if ver = "2" then
+        let ms : Option (List (List (Bytes × Bytes) × Bool)) := msgs.mapM fun m =>
+          match m.splitOn "/" with
+          | [es, l] => (kvList l).map fun fs => (fs, es = "1")
+          | _ => none
+        match ms with
+        | none => "bad-op"
+        | some ms =>
+          String.intercalate " | " ((h2Run cfg.site cfg.env (ReqSt.init cfg.env) 65535 [] ms).map outStr)
+      else
+        match msgs.mapM ofHex with
+        | none => "bad-op"
+        | some ms => String.intercalate " | " ((h1Run cfg.site cfg.env (Conn.fresh cfg.env) ms).map outStr)
+  | _ => "bad-op"
+
 def serverLine : List String → String
+  | "conn" :: ver :: rest => connLine ver rest
   | "rst" :: op :: specs =>
     match specs.foldlM applySpec freshWorld with
     | none => "bad-op"
